@@ -59,7 +59,9 @@ class Contract:
         self.total_float_division = kw.pop("total_float_division", False)
         self.light_trig = kw.pop("light_trig", False)
         self.materialize = kw.pop("materialize", False)
-        self.libm_axioms = kw.pop("libm_axioms", [])       # extra (listed) facts about libm functions, e.g. "arccos-decreasing"    # every computed array becomes a named array + defining axiom (no nested lambdas)      # sin/cos constrained by their range only (no sin^2+cos^2=1)   # C doubles: x/0 is inf/nan, not a trap
+        self.libm_axioms = kw.pop("libm_axioms", [])
+        self.raise_ensures = kw.pop("raise_ensures", {})
+        self.callee_contracts = kw.pop("callee_contracts", {})   # callee qualname -> name of the contract to use at its call sites   # exception class -> {name: clause} that must hold when it escapes       # extra (listed) facts about libm functions, e.g. "arccos-decreasing"    # every computed array becomes a named array + defining axiom (no nested lambdas)      # sin/cos constrained by their range only (no sin^2+cos^2=1)   # C doubles: x/0 is inf/nan, not a trap
         if kw:
             raise TypeError("unknown contract keys %s in %s" % (sorted(kw), name))
 
